@@ -4,7 +4,7 @@
    evaluated on the float instance of the model by vm_compute and replayed on the implementation by the check
    (known findings K3-K6 in /verif/known_findings.json). *)
 From Coq Require Import Reals Lra Floats.
-From TA Require Import Base Model Generic FloatInst Run XR Proofs.Ring Proofs.XBase Proofs.XSd Proofs.XMad Proofs.Wiring Proofs.Osc Proofs.XFast Proofs.XCor.
+From TA Require Import Base Model Generic FloatInst Run XR Proofs.Ring Proofs.XBase Proofs.XSd Proofs.XMad Proofs.Wiring Proofs.Osc Proofs.XFast Proofs.XCor Proofs.XRoc.
 
 (* exact arithmetic: on a flat window (any length >= 1, at any point of any history, since outputs depend on the window only)
    MAD = 0, SD = 0, the mean is the level and the Bollinger bands collapse onto it, for every multiplier *)
@@ -24,6 +24,10 @@ Qed.
 (* TrueRange of an unchanged price is exactly 0 *)
 Theorem C08_tr_flat_0 : forall x : R, snd (tr_next XROps (mkTr (Some (Fin x))) (Fin x)) = Fin 0.
 Proof. intros x. unfold tr_next. cbn [tr_prev_close snd]. xfin. f_equal. replace (x - x)%R with 0%R by lra. apply Rabs_R0. Qed.
+
+(* RateOfChange returns exactly 0 when the price equals its reference (any flat non-zero level) *)
+Theorem C08_roc_flat_0 : forall p h x, roc_ref p h x = x -> x <> 0%R -> roc_spec p h x = Fin 0.
+Proof. exact roc_spec_flat. Qed.
 
 (* ---- refuted for four indicators (float instance of the model; the same inputs are replayed on the crate) ---- *)
 Definition last_out (ops : list fop) : list float :=
